@@ -2,7 +2,7 @@ HOOKS = dict(
     guard="verif-hooks",
     enable="cargo feature `verif-hooks` of the `selium` client crate (off by default); the harness crate /verif/harness enables it through its path dependency",
     baseline_off_cmd="cd /repo && cargo test --workspace --no-fail-fast --offline",
-    source_commits=[],
+    source_commits=["c362ed8"],
     add_only=True,
 )
 
@@ -115,6 +115,13 @@ META["C15"] = dict(
     design_ref="DESIGN.md section 6, C15",
     note="X.509, signatures and the TLS handshake are rustls/webpki/ring: trusted, exercised, not proved",
     technique="Lean 4 policy theorem over source-extracted configuration + exhaustive pairing run over real QUIC",
+)
+
+META["C12"] = dict(
+    text="Lean 4 theorems over the retry logic with its budget scope read from the source: c12_budget_per_outage (the outcome of every outage is that of a fresh budget), c12_survives_any_number_of_outages, c12_exhaustion_iff (too-many-retries exactly when all attempts of one outage fail), c12_fatal_immediate, c12_recovers, obligations budgets_per_outage / recoverable_classification on the regenerated facts; reconnection itself is exercised end to end by cutting real QUIC connections more often than the budget and checking traffic after each recovery for all four stream kinds",
+    design_ref="DESIGN.md section 6, C12",
+    note="proof of the retry logic; reconnecting through quinn/TLS/the server is exercised, not proved",
+    technique="Lean 4 proof over retry model with source-extracted budget scope + end-to-end fault injection",
 )
 
 _PENDING = "not built yet in this session; planned at proof level (DESIGN.md section 6) — will be claimed as soon as its first theorem and correspondence suite exist"
